@@ -176,7 +176,10 @@ def run_special(ctx):
         if not ok and isinstance(exp, (int, float)) and isinstance(got, (int, float)):
             ok = abs(exp - got) < 1e-9
         if not ok and isinstance(exp, list) and isinstance(got, (list, tuple)) and len(exp) == len(got):
-            ok = all(abs(float(a) - float(b)) < 1e-9 for a, b in zip(exp, got))
+            try:
+                ok = all(abs(float(a) - float(b)) < 1e-9 for a, b in zip(exp, got))
+            except (TypeError, ValueError):
+                ok = False          # something that is not a number where a number is expected
         if not ok:
             common.add_violation(ctx, what, case, exp, got)
     # HKLF forms
@@ -324,6 +327,49 @@ def run_special(ctx):
             if diff:
                 common.add_violation(ctx, 'after set(text) an attribute differs from what reading text gives (a value of the old instruction is left over)',
                                      dict(case, attributes=diff), {k_: b_.get(k_) for k_ in diff}, {k_: a_.get(k_) for k_ in diff})
+    # UNIT: values as written, and after a value was set (also values of 1000 and more): the text denotes the values
+    for vals in ([16, 20, 4, 2], [640, 1536, 64, 1], [1200.5, 2400, 16, 2], [16, 20, 4, 1000]):
+        lines_ = HEAD[:6] + ['UNIT ' + ' '.join(str(v) for v in vals)] + HEAD[7:] + ATOMS + TAIL
+        text = '\n'.join(lines_) + '\n'
+        status, inner, shx = im.read_text(text, 'quiet')
+        if status != 'ok' or inner or shx.unit is None:
+            common.add_violation(ctx, 'a valid UNIT instruction raises', {'instruction': lines_[6], 'text': text}, 'ok', '%s %s' % (status, inner))
+            continue
+        case = {'instruction': lines_[6], 'text': text}
+        expect('UNIT: values', case, [float(v) for v in vals], [float(v) for v in shx.unit.values])
+        for new in (1536, 7, 2000.5):
+            shx.unit[1] = new
+            want = [float(vals[0]), float(new)] + [float(v) for v in vals[2:]]
+            toks = str(shx.unit).split()
+            try:
+                den = [float(t) for t in toks[1:]]
+            except ValueError:
+                den = toks[1:]
+            expect('UNIT: text after a value was set', dict(case, set='unit[1] = %s' % new), want, den)
+            written = [l for l in im.write_text(shx).split('\n') if l.upper().startswith('UNIT')]
+            try:
+                wden = [float(t) for t in written[0].split()[1:]]
+            except (ValueError, IndexError):
+                wden = written
+            expect('UNIT: written file after a value was set', dict(case, set='unit[1] = %s' % new), want, wden)
+    # FRAG code[17] a[1] b[1] c[1] alpha[90] beta[90] gamma[90]: every prefix of the parameter list
+    from shelxfile.shelx.cards import FRAG as _FRAG
+    from shelxfile.shelx.shelx import Shelxfile as _Shx
+    full_ = [17, 12.5, 8.25, 10.125, 95.5, 101.25, 88.75]
+    dfl_ = [17, 1.0, 1.0, 1.0, 90.0, 90.0, 90.0]
+    for n_ in range(0, 8):
+        line = ' '.join(['FRAG'] + [str(v) for v in full_[:n_]])
+        try:
+            fr = _FRAG(_Shx(), line.split())
+        except Exception as ex:
+            common.add_violation(ctx, 'a valid FRAG instruction raises', {'instruction': line}, 'no exception', repr(ex))
+            continue
+        want = full_[:n_] + dfl_[n_:]
+        expect('FRAG: code', {'instruction': line}, want[0], fr.code)
+        expect('FRAG: cell (omitted parameters have their defaults)', {'instruction': line}, [float(v) for v in want[1:]], [float(v) for v in fr.cell])
+        fr2 = _FRAG(_Shx(), ('FRAG ' + ' '.join(str(v) for v in full_)).split())
+        fr2.set(line)
+        expect('FRAG: cell after set()', {'instruction': 'FRAG (full) -> set(%s)' % line}, [float(v) for v in want[1:]], [float(v) for v in fr2.cell])
     # MOVE dx[0] dy[0] dz[0] sign[1] and DISP E f' f" mu: attributes that are lists / words
     for line, exp_shift, exp_sign in (('MOVE', None, None), ('MOVE 0.5', [0.5, 0, 0], None), ('MOVE 0.5 0.25', [0.5, 0.25, 0], None), ('MOVE 0.5 0.25 -0.75', [0.5, 0.25, -0.75], None),
                                       ('MOVE 1 1 1 -1', [1, 1, 1], -1)):
